@@ -116,6 +116,9 @@ def reply_text(rng, kind):
     if kind == "OKspace":
         # "OK" followed by a space but no account before the next space: vouches no account
         return rng.choice(["OK ", "OK  alice", "OK  ", "OK  alice:123 x"])
+    if kind in ("NO", "AGAIN", "MORE") and rng.random() < 0.04:
+        # a text that does not fit the daemon's output line: it may be cut, but the line must still end
+        return kind + " " + "".join(rng.choice("abcdefghij klmnop%:") for _ in range(rng.choice([990, 1010, 1024, 1100, 2000]))).strip()
     if kind == "NO":
         return "NO " + text_of(rng).strip(" ") if rng.random() < 0.5 else "NO " + text_of(rng)
     if kind == "AGAIN":
